@@ -246,6 +246,10 @@ def exec_c13(case):
         S, ambiguous = fam.dialect_closure(core["cls"])
         if not S or ambiguous:
             return None
+        if case["spec"].get("flaky") and fam.dialects[d].get("omit_default"):
+            # as a class default this dialect would call the (still failing) user
+            # default_factory while the twin is being *defined*
+            return None
         return [d, sorted(S)]
 
     return E.Execution(case["spec"], case["ops"], twin_dialect_for=twin_for,
